@@ -28,6 +28,11 @@ type c12Scenario struct {
 	AlsoCloseAt int           `json:"also_close_at"`      // with a fault: additionally close at this request (-1: no)
 	ErrKind     string        `json:"err_kind,omitempty"` // plain | ctx-canceled | deadline | eof : what OnTracks / the transport returns
 	Shape       string        `json:"shape,omitempty"`    // "" | many-samples | ll-hint-stall
+	// fault-on: a fault on the nth request of a kind of resource (rather than on a request index)
+	FaultOn  string `json:"fault_on,omitempty"` // lead_seg | lead_init | lead.m3u8 | rend0_seg | rend0.m3u8 | rend0_init | index.m3u8
+	FaultNth int    `json:"fault_nth,omitempty"`
+	// FaultAfter: the faulty answer is held back until another stream has requested this
+	FaultAfter string `json:"fault_after,omitempty"`
 }
 
 var errOnTracks = errors.New("harness: OnTracks refuses the tracks")
@@ -50,7 +55,7 @@ func drawC12(t *rapid.T) c12Scenario {
 	if sc.Stream.Multi {
 		sc.Entry = "multi"
 	}
-	sc.Inject = rapid.SampledFrom([]string{"close-at-request", "close-at-request", "close-in-ontracks", "close-after-units", "close-after-units", "close-after-wait", "fault", "fault", "fault", "ontracks-error", "none"}).Draw(t, "inject")
+	sc.Inject = rapid.SampledFrom([]string{"close-at-request", "close-at-request", "close-in-ontracks", "close-after-units", "close-after-units", "close-after-wait", "fault", "fault", "fault", "fault-on", "fault-on", "ontracks-error", "none"}).Draw(t, "inject")
 	sc.CloseCalls = rapid.IntRange(1, 3).Draw(t, "closeCalls")
 	sc.ErrKind = rapid.SampledFrom([]string{"plain", "plain", "ctx-canceled", "deadline", "eof"}).Draw(t, "errKind")
 	switch rapid.IntRange(0, 9).Draw(t, "shape") {
@@ -81,6 +86,15 @@ func drawC12(t *rapid.T) c12Scenario {
 		sc.At = rapid.IntRange(0, 14).Draw(t, "atReq")
 	case "close-after-units":
 		sc.At = rapid.IntRange(1, 12).Draw(t, "atUnit")
+	case "fault-on":
+		sc.FaultOn = rapid.SampledFrom([]string{"lead_seg", "lead_seg", "lead_init", "lead.m3u8", "rend0_seg", "rend0.m3u8", "rend0_init", "index.m3u8"}).Draw(t, "faultOn")
+		sc.FaultNth = rapid.SampledFrom([]int{0, 0, 0, 1, 2}).Draw(t, "faultNth")
+		sc.FaultKind = rapid.SampledFrom([]string{"status404", "status500", "neterr"}).Draw(t, "faultKind2")
+		if strings.HasPrefix(sc.FaultOn, "lead") {
+			sc.FaultAfter = rapid.SampledFrom([]string{"", "rend0_seg", "rend0_seg", "rend0_init"}).Draw(t, "faultAfter")
+		} else if strings.HasPrefix(sc.FaultOn, "rend") {
+			sc.FaultAfter = rapid.SampledFrom([]string{"", "lead_seg", "lead_init"}).Draw(t, "faultAfter2")
+		}
 	case "fault":
 		sc.At = rapid.IntRange(0, 14).Draw(t, "faultAt")
 		sc.FaultKind = rapid.SampledFrom([]string{"status404", "status500", "neterr", "stall", "truncate"}).Draw(t, "faultKind")
@@ -123,6 +137,9 @@ func execC12(sc c12Scenario) core.Outcome {
 		opts.CloseAfterUnits = sc.At
 	case "close-after-wait":
 		opts.CloseAfterWait = true
+	case "fault-on":
+		srv.AddURLFaultAfter(sc.FaultOn, sc.FaultNth, sc.FaultKind, sc.FaultAfter)
+		label += ":" + sc.FaultOn + ":" + sc.FaultKind
 	case "fault":
 		srv.AddFault(cli.Fault{AtReq: sc.At, Kind: sc.FaultKind})
 		label += ":" + sc.FaultKind
@@ -156,16 +173,21 @@ func execC12(sc c12Scenario) core.Outcome {
 		landed = total >= sc.At
 	case "fault":
 		landed = nreq > sc.At
+	case "fault-on":
+		landed = srv.URLFaultsHit()
 	case "close-after-wait":
 		landed = true
 	}
-	o.NonTrivial = landed && (r.OnTracksCalls > 0 || sc.At >= 1)
+	o.NonTrivial = landed && (r.OnTracksCalls > 0 || sc.At >= 1 || sc.Inject == "fault-on")
 	if landed {
 		o.Labels = append(o.Labels, "landed")
 	}
 
 	if strings.HasPrefix(fmt.Sprint(r.WaitErr), "HARNESS:") {
 		return fail(o, "Wait() yields nothing even after Close (%s at %d); requests %v", label, sc.At, reqURLs(r.Requests))
+	}
+	if r.CloseHung {
+		return fail(o, "Close() did not return within 5 s (%s at %d); requests %v", label, sc.At, reqURLs(r.Requests))
 	}
 	if r.WaitErr == nil {
 		return fail(o, "Wait() yielded a nil error (%s)", label)
@@ -184,7 +206,7 @@ func execC12(sc c12Scenario) core.Outcome {
 		if landed && (r.WaitErr == nil || !r.WaitReturned || !strings.Contains(r.WaitErr.Error(), errOnTracks.Error())) {
 			return fail(o, "OnTracks returned an error but Wait() yielded %q", r.WaitErr)
 		}
-	case "fault":
+	case "fault", "fault-on":
 		if landed && sc.AlsoCloseAt < 0 {
 			switch sc.FaultKind {
 			case "status404", "status500":
@@ -192,10 +214,16 @@ func execC12(sc c12Scenario) core.Outcome {
 				if sc.FaultKind == "status500" {
 					code = "500"
 				}
+				if closedByHarness {
+					return fail(o, "a request (%s) was answered status %s but Wait() yielded nothing for %v, until the harness closed the client (then %q); requests %v", label, code, opts.MaxWait, r.WaitErr, reqURLs(r.Requests))
+				}
 				if isEOS || !strings.Contains(r.WaitErr.Error(), code) {
 					return fail(o, "request %d answered status %s but Wait() yielded %q; requests %v", sc.At, code, r.WaitErr, reqURLs(r.Requests))
 				}
 			case "neterr":
+				if closedByHarness {
+					return fail(o, "a request (%s) failed with a transport error but Wait() yielded nothing for %v, until the harness closed the client (then %q)", label, opts.MaxWait, r.WaitErr)
+				}
 				if isEOS || !strings.Contains(r.WaitErr.Error(), "injected transport error") {
 					return fail(o, "request %d failed with a transport error but Wait() yielded %q", sc.At, r.WaitErr)
 				}
